@@ -17,6 +17,7 @@ type C14Case struct {
 	Kinds  []Kind `json:"kinds"`  // kind of every element; the value encodes the position
 	Object bool   `json:"object"` // fields "k<i>" of an object instead of list elements
 	Pred   int    `json:"pred"`   // predicate selector for the Filter variants
+	Route  int    `json:"route"`  // construction route of the list (see listByRoute)
 }
 
 func GenC14(t *rapid.T) *C14Case {
@@ -27,7 +28,7 @@ func GenC14(t *rapid.T) *C14Case {
 	for i := range alphabet {
 		alphabet[i] = Kind(drawIdx(t, 7, "kind"))
 	}
-	c := &C14Case{Object: drawInt(t, 0, 2, "obj") == 0, Pred: drawInt(t, 0, 3, "pred")}
+	c := &C14Case{Object: drawInt(t, 0, 2, "obj") == 0, Pred: drawInt(t, 0, 3, "pred"), Route: drawInt(t, 0, 7, "route")}
 	for i := 0; i < n; i++ {
 		c.Kinds = append(c.Kinds, alphabet[drawIdx(t, nk, "k")])
 	}
@@ -48,7 +49,7 @@ func elemValue(k Kind, i int) any {
 	case KString:
 		return fmt.Sprintf("s%d", i)
 	case KList:
-		return at.NewList(i)
+		return at.NewList(i, "second")
 	case KObject:
 		return at.NewObject("pos", i)
 	}
@@ -156,11 +157,17 @@ func unclassifiedViews(st *Stats) {
 func checkListViews(c *C14Case, st *Stats) error {
 	n := len(c.Kinds)
 	vals := make([]any, n)
-	l := at.NewList()
+	shape := V{K: KList}
 	for i, k := range c.Kinds {
 		vals[i] = elemValue(k, i)
-		l.Add(vals[i])
+		if sv, err := Snap(vals[i]); err == nil && k != KList && k != KObject {
+			shape.L = append(shape.L, sv)
+		} else {
+			shape.L = append(shape.L, V{K: k})
+		}
 	}
+	l := listByRoute(shape, vals, c.Route%8, c.Pred)
+	st.Count(fmt.Sprintf("route.%d", c.Route%8))
 	before, _ := TakeIdentSnap(l)
 	// expected subsequences
 	sub := map[Kind][]any{}
@@ -385,12 +392,24 @@ func tagsAsStrings(l at.List) []string {
 func checkObjectViews(c *C14Case, st *Stats) error {
 	n := len(c.Kinds)
 	o := at.NewObject()
+	if c.Route%3 == 1 {
+		// typed-map origin: the int fields come from a map[string]int, the others are Set afterwards
+		m := map[string]int{}
+		for i, k := range c.Kinds {
+			if k == KInt {
+				m[fmt.Sprintf("k%d", i)] = elemValue(k, i).(int)
+			}
+		}
+		o = at.NewObjectFrom(m)
+	}
 	vals := map[string]any{}
 	byKind := map[Kind]map[string]any{}
 	for i, k := range c.Kinds {
 		key := fmt.Sprintf("k%d", i)
 		vals[key] = elemValue(k, i)
-		o.Set(key, vals[key])
+		if !(c.Route%3 == 1 && k == KInt) {
+			o.Set(key, vals[key])
+		}
 		if byKind[k] == nil {
 			byKind[k] = map[string]any{}
 		}
